@@ -1,4 +1,4 @@
--- PINNED by bin/pin_tables: copy of Gen/Dispatch.lean as generated from /repo at 488bb86 — regenerate, do not edit
+-- PINNED by bin/pin_tables: copy of Gen/Dispatch.lean as generated from /repo at 0820e18 — regenerate, do not edit
 namespace Ggql.Pinned
 def dispatchOrder : List String := ["resolver", "any", "reflect"]
 def opFallbackAnyName : Bool := false
@@ -9,6 +9,8 @@ def dupScalarDropped : Bool := false
 def dirArgWrapperAccepted : Bool := false
 def descRaw : Bool := false
 def assureOnce : Bool := false
+def unionFirstCome : Bool := false
+def ifaceNeedsBound : Bool := false
 def shallowRollback : Bool := false
 def inputExtendMapOrder : Bool := false
 def toolOmitsDirectives : Bool := false
